@@ -46,6 +46,15 @@ def run_shard(shard, ctx):
         cfg = c['cfg']
         tail = draw(st.lists(H.op_strategy(cfg['fam'], cfg['kind'], cfg.get('ktype', 'int')), max_size=10))
         c['tail'] = tail
+        # arguments that ARE ints / floats without being exactly int / float (bool, subclasses): every
+        # implementation must store the plain number, so states and pickles stay identical
+        fam = cfg['fam']
+        il = []
+        if fam[0] in F.INT_CODES:
+            il.append(st.tuples(st.just('k'), st.sampled_from([True, False, 'sub0', 'sub1', 'sub7'])).map(list))
+        if F.is_map(cfg['kind']) and fam[1] in F.INT_CODES + 'F':
+            il.append(st.tuples(st.just('v'), st.integers(0, 40), st.sampled_from([True, False, 'sub0', 'sub1', 'sub7'])).map(list))
+        c['intlike'] = draw(st.lists(st.one_of(*il), max_size=3)) if il else []
         return c
 
     try:
@@ -218,8 +227,30 @@ def run_case(case, ctx):
                 return False, ('abandoned_semantic_mismatch',)
         if _contents(lc, lc.t) != _contents(lp, lp.t) or _contents(lc, lc.t) != lc.model_contents():
             return False, ('abandoned_semantic_mismatch',)
+        nintlike = 0
+        for il in case.get('intlike', ()):
+            for lv in (lc, lp):
+                arg = il[-1]
+                if isinstance(arg, str):
+                    num = int(arg[3:])
+                    arg = F.SubFloat(num) if (il[0] == 'v' and lv.fam[1] == 'F') else F.SubInt(num)
+                plain = float(arg) if (il[0] == 'v' and lv.fam[1] == 'F') else int(arg)
+                if il[0] == 'k':
+                    if lv.is_map:
+                        v = lv.V(F.default_token(lv.fam) if lv.fam[1] not in 's' else 0) if lv.fam[1] != 'O' else None
+                        lv.t[arg] = v
+                        lv.model[plain] = v
+                    else:
+                        lv.t.add(arg)
+                        lv.model[plain] = None
+                else:
+                    ks = lv.sorted_keys()
+                    k = ks[il[1] % len(ks)] if ks else lv.K(F.default_token(lv.fam, lv.ktype))
+                    lv.t[k] = arg
+                    lv.model[k] = plain
+            nintlike += 1
         form = _state_form(lc.t, lc.is_tree)
-        classes = ['form:' + form, 'kind:' + lc.kind, 'mode:' + lc.mode]
+        classes = ['form:' + form, 'kind:' + lc.kind, 'mode:' + lc.mode] + (['intlike_args'] if nintlike else [])
         want = lc.model_contents()
         sig0 = {'kind': lc.kind, 'form': form, 'mode': lc.mode}
         nleaves = 1
@@ -368,5 +399,44 @@ def run_case(case, ctx):
                                  dict(sig, what='peer-back-contents'))
                 _sound(lc, back, what + ' and back', sig)
                 classes.append('peer_roundtrip')
+        # ---- stored trees: once the nodes have oids (committed to a database) the two implementations must
+        #      still choose the same state form for the same history (embedded leaf vs. child reference)
+        if lc.is_tree:
+            from vlib import minizodb as Z
+            conns = []
+            for lv in (lc, lp):
+                conn = Z.Connection(Z.Storage())
+                conn.add(lv.t)
+                conn.commit()
+                conns.append(conn)
+            ok = True
+            for op in case['tail']:
+                rc, rp = lc.step(op), lp.step(op)
+                if not H.same(*rc) or not H.same(*rp):
+                    ok = False          # C01's business
+                    break
+            if ok and _contents(lc, lc.t) == _contents(lp, lp.t):
+                skc = walker.skeleton(lc.t, lc.is_map, True)
+                skp = walker.skeleton(lp.t, lp.is_map, True)
+                if skc != skp:
+                    ctx.mismatch('after commit (all nodes have oids) and the tail history %r the serialized state of '
+                                 '%s%s differs between C and Python:\n C  %r\n Py %r'
+                                 % (case['tail'], lc.fam, lc.kind, skc, skp),
+                                 dict(sig0, what='stored-state-differs', iand=any(o[0] == 'iand' for o in case['tail'])))
+                classes.append('stored_state_compared')
+                # and what is committed then is what a fresh reader sees (both implementations)
+                for lv, conn in zip((lc, lp), conns):
+                    wk = walker.walk(lv.t, lv.is_map, check=False)
+                    if walker.f16_pending(wk):
+                        ctx.exclude('commit of a tree with a single-leaf non-root interior node (F16)')
+                        continue
+                    conn.commit()
+                    rd = Z.Connection(conn.storage)
+                    cp = rd.get(lv.t._p_oid)
+                    got = _contents(lv, cp)
+                    if got != lv.model_contents() or not H._types_ok(got, lv.model_contents()):
+                        ctx.mismatch('%s%s(%s) committed, changed by %r and committed again: a fresh reader sees %r, '
+                                     'expected %r' % (lv.fam, lv.kind, lv.impl, case['tail'], got, lv.model_contents()),
+                                     dict(sig0, what='stored-reader-contents', impl=lv.impl))
         nontrivial = (multi or form == 'embedded') and removed >= 1
         return nontrivial, classes
